@@ -76,6 +76,58 @@ pub fn expand(stratum: u8, seed: u64, n: usize, unit_cube_only: bool) -> Vec<[f3
     out
 }
 
+fn forward(px: Vec<[f32; 3]>) -> Option<Vec<[f32; 3]>> {
+    let n = px.len();
+    catch(|| LinearRgb::new(px, n, 1).ok().map(|l| Xyb::from(l).into_data())).ok().flatten()
+}
+
+/// A pixel of [0,1]^3, far from `p0`, whose forward transform agrees *bit-exactly* with that of `p0` in the XYB
+/// channels of `keep` and differs in the others: the changed XYB value is inverted with the f64 definition and the
+/// result is then tuned by a few ulps (two components at a time) using the library's own forward conversion.
+/// Neighbouring pixels related like this are what an inverse that remembers part of the previous pixel trips over.
+pub fn xyb_twin(p0: [f32; 3], keep: [bool; 3], e: &mut Expand) -> Option<[f32; 3]> {
+    let x0 = forward(vec![p0])?[0];
+    let amp = [0.02f64, 0.3, 0.4];
+    let mut scale = 1.0;
+    for _ in 0..7 {
+        let mut t = [x0[0] as f64, x0[1] as f64, x0[2] as f64];
+        for k in 0..3 {
+            if !keep[k] {
+                t[k] += scale * amp[k] * e.range_f64(0.1, 1.0) * if e.below(2) == 0 { 1.0 } else { -1.0 };
+            }
+        }
+        scale *= 0.5;
+        let s = oracle::xyb_to_lrgb(t);
+        let start = [s[0] as f32, s[1] as f32, s[2] as f32];
+        if !start.iter().all(|v| *v > 1e-3 && *v < 0.999) {
+            continue;
+        }
+        const R: i32 = 40;
+        let step = |v: f32, d: i32| f32::from_bits((v.to_bits() as i32 + d) as u32);
+        let mut cands = Vec::with_capacity(3 * ((2 * R + 1) * (2 * R + 1)) as usize);
+        for (a, b) in [(0usize, 1usize), (1, 2), (0, 2)] {
+            for da in -R..=R {
+                for db in -R..=R {
+                    let mut q = start;
+                    q[a] = step(q[a], da);
+                    q[b] = step(q[b], db);
+                    cands.push(q);
+                }
+            }
+        }
+        let out = forward(cands.clone())?;
+        for (q, x) in cands.iter().zip(out.iter()) {
+            if (0..3).all(|k| !keep[k] || x[k].to_bits() == x0[k].to_bits()) && (0..3).any(|k| (q[k] - p0[k]).abs() > 1e-3) {
+                return Some(*q);
+            }
+        }
+    }
+    None
+}
+
+/// how many XYB twins `pixels()` placed (a class counter for the evidence)
+pub static TWINS_PLACED: std::sync::atomic::AtomicU64 = std::sync::atomic::AtomicU64::new(0);
+
 impl Case {
     pub fn pixels(&self, unit: bool) -> Vec<[f32; 3]> {
         match &self.px {
@@ -86,6 +138,19 @@ impl Case {
                     let fb = |p: [f32; 3]| -> Option<[f32; 3]> { LinearRgb::new(vec![p], 1, 1).ok().map(|l| Xyb::from(l).data()[0]) };
                     let dom = |p: [f32; 3]| -> bool { p.iter().all(|x| x.is_finite() && *x >= 0.0 && *x <= if unit { 1.0 } else { 4.0 }) };
                     correlate_px(&mut px, *seed, Some(&fb), &dom);
+                }
+                if unit && seed % 8 == 5 && px.len() >= 2 {
+                    // C05: up to three neighbours whose XYB agrees bit-exactly in one or two channels
+                    let mut e = Expand(*seed ^ 0x7A11);
+                    let masks = [[true, true, false], [true, false, true], [false, true, true], [true, false, false], [false, true, false], [false, false, true]];
+                    for _ in 0..1 + e.below(3) {
+                        let i = e.below(px.len() as u64 - 1) as usize;
+                        let keep = *e.pick(&masks);
+                        if let Some(q) = xyb_twin(px[i], keep, &mut e) {
+                            px[i + 1] = q;
+                            TWINS_PLACED.fetch_add(1, std::sync::atomic::Ordering::Relaxed);
+                        }
+                    }
                 }
                 px
             }
@@ -344,6 +409,7 @@ pub fn run_c05(ctx: &Ctx, st: &mut Stats) -> Vec<Violation> {
         return v;
     }
     v.extend(large_images(ctx, st, check_c05));
+    st.class("neighbours_with_bit_equal_xyb_channels_placed", TWINS_PLACED.load(std::sync::atomic::Ordering::Relaxed));
     v
 }
 
@@ -355,4 +421,4 @@ pub fn replay_c05(v: &Value) -> Result<(), String> {
 }
 
 pub const RULE_C04: &str = "cases = w x h images (1..40 x 1..12, so pixel counts of every residue) of linear-RGB pixels from 9 strata, a third of the images with related neighbours (equal / partly equal / fed-back pixels), single-pixel and tiny images over-represented (uniform [0,4]^3, near-neutral, near black with log-uniform scale 1e-9..1e-1, greys, single channel, [-1,4]^3 with a negative component, unit cube, R close to G, lattice corners) generated by proptest, plus an enumerated lattice on [0,4]^3 and real-size images (32768 .. 2 M pixels); every in-domain pixel compared with the f64 opsin definition (tol 2e-6); negative pixels whose opsin mixes fall in (-1e-3, 0.05) are converted but not compared (outside the stated domain) and counted; non-trivial = image containing a non-grey pixel; distinct = by hash of (w,h,pixel bits)";
-pub const RULE_C05: &str = "cases = w x h images (1..40 x 1..12) of linear-RGB pixels of [0,1]^3 from 9 strata, a third of the images with related neighbours (equal / partly equal / fed-back pixels), single-pixel and tiny images over-represented (uniform, near-neutral (grey + perturbations of scale 1e-7..1e-3), near black, greys, single channel, R close to G with |R-G| log-uniform 1e-7..1e-2, lattice corners) generated by proptest, plus an enumerated lattice on [0,1]^3 and real-size images (32768 .. 2 M pixels); oracle = LinearRgb -> Xyb -> LinearRgb returns every component within 5e-5, dimensions preserved; non-trivial = image containing a non-grey pixel; distinct = by hash of (w,h,pixel bits)";
+pub const RULE_C05: &str = "cases = w x h images (1..40 x 1..12) of linear-RGB pixels of [0,1]^3 from 9 strata, a third of the images with related neighbours (equal / partly equal / fed-back pixels), one image in eight with neighbours whose forward transforms agree bit-exactly in one or two XYB channels and differ in the rest (found by inverting the changed XYB value in f64 and tuning by a few ulps), single-pixel and tiny images over-represented (uniform, near-neutral (grey + perturbations of scale 1e-7..1e-3), near black, greys, single channel, R close to G with |R-G| log-uniform 1e-7..1e-2, lattice corners) generated by proptest, plus an enumerated lattice on [0,1]^3 and real-size images (32768 .. 2 M pixels); oracle = LinearRgb -> Xyb -> LinearRgb returns every component within 5e-5, dimensions preserved; non-trivial = image containing a non-grey pixel; distinct = by hash of (w,h,pixel bits)";
